@@ -174,7 +174,7 @@ def gen_project(r, n_kinds=None, prestates=PRESTATES, allow_method=True, allow_b
                 content = render(k, nir, name, method, before, after)
             else:
                 content = render(k, ir, name, method, before, after)
-            if i >= 1 and files[-1]["prestate"] == "stale" and files[-1]["name"].startswith(k + "_") and r.random() < 0.5:
+            if i >= 1 and files[-1]["prestate"] == "stale" and files[-1]["name"].startswith(k + "_") and r.random() < 0.85:
                 # two targets of one kind with byte-identical stale contents (copies of one template file)
                 ps, content, before, after = "stale", files[-1]["content"], files[-1]["before"], files[-1]["after"]
             files.append({"name": "%s_%d.py" % (k, i), "prestate": ps, "content": content, "before": before, "after": after})
